@@ -299,9 +299,9 @@ def main():
         # the side conditions of C16_every_text other than the tables: both artefacts give the scanner and the tree builder the same data
         try:
             ltxtB, nidB, _ = lexgen.model(B, sid, allrules)
-            for nm in ("lex_order", "lex_ignore", "rule_infos", "filtered", "str_texts", "no_embedded"):
+            for nm in ("lex_order", "lex_ignore", "rule_infos", "filtered", "str_texts", "no_embedded", "shape_SYMBOL", "shape_WS", "SYMBOL_is_class_plus", "WS_is_class_plus"):
                 ltxtB = re.sub(r"\b%s\b" % nm, nm + "_B", ltxtB)
-            gl = (LHEADER + "From Coq Require Import NArith.\nFrom Measured Require Import Model.Lex.\n" + ltxt + ltxtB +
+            gl = (LHEADER + "From Coq Require Import NArith.\nFrom Measured Require Import Model.Lex Proofs.LexFacts.\n" + ltxt + ltxtB +
                   "Lemma lexdata_equal : lex_order = lex_order_B /\\ lex_ignore = lex_ignore_B /\\ rule_infos = rule_infos_B /\\ filtered = filtered_B.\n"
                   "Proof. repeat split; reflexivity. Qed.\n")
             okl, logl = c.run_coq({"Gen_lexdata": gl})["Gen_lexdata"]
@@ -327,7 +327,7 @@ def main():
                 except lexgen.Untranslatable:
                     skipped_txt += 1
         rules_coq2 = clist(f"(MkRule {cpos(sid[r[0]])} {cnat(len(r[1]))})" for r in allrules)
-        head = (LHEADER + "From Coq Require Import NArith.\nFrom Measured Require Import Model.Lex.\n" + ltxt +
+        head = (LHEADER + "From Coq Require Import NArith.\nFrom Measured Require Import Model.Lex Proofs.LexFacts.\n" + ltxt +
                 f"Definition rules : list rule := {rules_coq2}.\nDefinition terminals : list positive := {terminals}.\n")
         files = {}
         shard = 350
